@@ -65,6 +65,23 @@ def decModel (bufsize : Nat) (maxNext : Nat) (chunks : List Bytes) : String :=
       if r == .ok then go d' n acc else acc.reverse
   ";".intercalate (go d0 maxNext [])
 
+/-- decf: the same with a visitor failing from its `failAt`-th event on (counted over the whole stream) -/
+def decFaultModel (failAt : Nat) (bufsize : Nat) (maxNext : Nat) (chunks : List Bytes) : String :=
+  let d0 : Dec.Dec :=
+    if bufsize == 0 then { hasReader := false, buffer := chunks.flatten, p := { failAt := some failAt } } else { reads := chunks, p := { failAt := some failAt } }
+  let rec go (d : Dec.Dec) (n : Nat) (acc : List String) : List String :=
+    match n with
+    | 0 => acc.reverse
+    | n + 1 =>
+      let before := (Parse.events d.p).length
+      let (d', r) := Dec.next (Dec.nextFuel d) d
+      let rs := match r with
+        | .ok => "ok" | .eof => "eof" | .unexpectedEOF => "err"
+        | .err .panic => "panic" | .err .outOfFuel => "hang" | .err _ => "err"
+      let acc := s!"{evsToString ((Parse.events d'.p).drop before)}={rs}" :: acc
+      if r == .ok then go d' n acc else acc.reverse
+  ";".intercalate (go d0 maxNext [])
+
 end SF.Ops.Cbor
 
 namespace SF.Ops.Cbor
